@@ -3,6 +3,7 @@ package scen
 import (
 	"encoding/binary"
 	"fmt"
+	"time"
 )
 
 var ReqKinds = []string{"object", "bool", "vecint", "veclong", "vecobj"}
@@ -11,8 +12,18 @@ var ReqKinds = []string{"object", "bool", "vecint", "veclong", "vecobj"}
 func NewResumed(s Source) *Scenario {
 	sc := &Scenario{Kind: "rpc", RPC: &RPCSpec{}}
 	key := s.Bytes("authkey", 256)
-	sc.Resume = &Resume{AuthKey: key, Salt: int64(binary.LittleEndian.Uint64(s.Bytes("salt", 8))), NoHash: s.Int("stored-without-key-id", 4) == 0}
+	sc.ServerClockOffset = DrawClockOffset(s)
+	sc.Resume = &Resume{AuthKey: key, Salt: int64(binary.LittleEndian.Uint64(s.Bytes("salt", 8))), NoHash: s.Int("stored-without-key-id", 4) == 0,
+		Via: []string{"", "", "", "storage", "both-absent", "both-other"}[s.Int("session-configured-via", 6)]}
 	return sc
+}
+
+// DrawClockOffset: one scenario in four is served by a clock beyond 2038-01-19 (msg_id seconds >= 2^31)
+func DrawClockOffset(s Source) int64 {
+	if s.Int("server-clock-after-2038", 4) != 0 {
+		return 0
+	}
+	return (1 << 31) - time.Now().Unix() + int64(s.Int("days-after", 3000))*86400
 }
 
 // NewSession is NewResumed, or - one time in four - a client without a stored session: it goes through the key
@@ -31,7 +42,7 @@ func NewSession(s Source) *Scenario {
 	}
 	hs.HS.P, hs.HS.Q = 1000003, 1000033
 	hs.HS.Splits = nil
-	return &Scenario{Kind: "rpc", RSA: hs.RSA, HS: hs.HS, RPC: &RPCSpec{Fresh: true}}
+	return &Scenario{Kind: "rpc", RSA: hs.RSA, HS: hs.HS, RPC: &RPCSpec{Fresh: true}, ServerClockOffset: hs.ServerClockOffset}
 }
 
 // Callers draws n caller goroutines with 1..maxReqs requests each; tags are unique and start at base.
@@ -100,6 +111,10 @@ func AnswerRounds(s Source, steps []Step, callers []CallSpec, errEvery int) ([]S
 			group := order[:n]
 			order = order[n:]
 			st := Step{Op: "answer", Container: s.Int("container", 2) == 1}
+			if !st.Container && n >= 2 && s.Int("reverse-wire", 2) == 0 {
+				st.ReverseWire = true
+				feats["older-msg_id-arrives-after-newer"]++
+			}
 			if st.Container && s.Int("nested", 4) == 0 {
 				st.Nested = true
 				feats["nested-container"]++
@@ -127,6 +142,9 @@ func AnswerRounds(s Source, steps []Step, callers []CallSpec, errEvery int) ([]S
 				feats[kinds[tg]+":"+form]++
 				if bigResult(tg) && (kinds[tg] == "object" || kinds[tg] == "veclong") && it.ErrCode == 0 {
 					feats["big-result"]++
+					if hugeResult(tg) && kinds[tg] == "object" {
+						feats["result-longer-than-1MiB"]++
+					}
 					if it.Gzip {
 						feats["big-result:gzip"]++
 					}
